@@ -55,7 +55,7 @@ func Run(c *core.Ctx) {
 	// 2a: direct histories on the exported queue
 	{
 		const stream = "queue-direct"
-		n := c.Pick(3000, 60000)
+		n := c.Pick(9000, 60000)
 		var tasks []*dtask
 		for i := 0; i < n; i++ {
 			if !c.Take(stream, i) {
@@ -98,7 +98,7 @@ func Run(c *core.Ctx) {
 	lap("hp-enum")
 	{
 		const stream = "hp-heap"
-		n := c.Pick(1200, 24000)
+		n := c.Pick(3600, 24000)
 		for i := 0; i < n; i++ {
 			if c.Take(stream, i) {
 				engineCase(stream, i, genHeap(c.Rng(stream, i)))
@@ -133,7 +133,7 @@ func Run(c *core.Ctx) {
 	lap("fail-rank")
 	{
 		const stream = "cascade"
-		n := c.Pick(1800, 40000)
+		n := c.Pick(5400, 40000)
 		for i := 0; i < n; i++ {
 			if c.Take(stream, i) {
 				engineCase(stream, i, genRandom(c.Rng(stream, i), c.Quick()))
@@ -144,7 +144,7 @@ func Run(c *core.Ctx) {
 	lap("cascade")
 	{
 		const stream = "sinks"
-		n := c.Pick(600, 10000)
+		n := c.Pick(1800, 10000)
 		for i := 0; i < n; i++ {
 			if !c.Take(stream, i) {
 				continue
